@@ -1,6 +1,8 @@
 (** C08: the eight per-configuration sweeps combined, and the encoder side of
     the round trip for all strings. *)
-From Coq Require Import NArith List Bool Arith Lia.
+From Coq Require Import NArith List Bool Arith Lia String.
+Local Open Scope string_scope.
+Local Open Scope list_scope.
 From PLV Require Import Base.PyStr L2T.L2T L2T.L2TWire Enc.Encoder Enc.Builtin Enc.RoundTrip.
 From PLV Require Import Proofs.EncoderProofs Proofs.EncBuiltinFacts Proofs.RoundTripDefs.
 From PLV Require Import Gen.GenBaseline.
@@ -12,7 +14,7 @@ Import ListNotations.
 Local Open Scope N_scope.
 
 (* keep unification from evaluating the big lists *)
-Local Opaque representatives c08_alphabet rep_pairs.
+Local Opaque representatives c08_alphabet rep_pairs shape.
 
 (** * Single characters: the whole alphabet, 4 schemes x 2 policies *)
 Theorem single_characters : forall c p sl,
@@ -38,7 +40,7 @@ Corollary single_characters_bool :
 Proof.
   apply forallb_forall. intros c Hc. apply forallb_forall. intros p Hp.
   apply forallb_forall. intros sl Hs. unfold roundtrip_ok.
-  rewrite (single_characters c p sl Hc Hp Hs). cbn [opt_str_eqb str_eqb]. rewrite N.eqb_refl. reflexivity.
+  rewrite <- roundtrip_fast_eq. rewrite (single_characters c p sl Hc Hp Hs). cbn [opt_str_eqb str_eqb]. rewrite N.eqb_refl. reflexivity.
 Qed.
 
 (** * Class pairs: every ordered pair of representatives *)
@@ -83,12 +85,16 @@ Qed.
 Theorem classes_covered : forall c, In c c08_alphabet ->
   exists r, In r representatives /\ In r c08_alphabet /\ shape r = shape c.
 Proof.
-  intros c Hc. pose proof every_class_represented as H. rewrite forallb_forall in H.
-  specialize (H c Hc). apply existsb_exists in H. destruct H as (k & Hk & He).
-  apply pair_eqb_true in He. unfold rep_shapes in Hk. apply in_map_iff in Hk.
-  destruct Hk as (r & Hr & Hin). exists r. split; [exact Hin|]. split; [|congruence].
-  pose proof representatives_in_alphabet as HA. rewrite forallb_forall in HA.
-  apply mem_N_In. exact (HA r Hin).
+  intros c Hc. pose proof every_class_represented as H.
+  pose proof (proj1 (forallb_forall (fun c => existsb (pair_eqb (shape c)) rep_shapes) c08_alphabet) H c Hc) as H1.
+  cbv beta in H1.
+  destruct (proj1 (existsb_exists (pair_eqb (shape c)) rep_shapes) H1) as (k & Hk & He).
+  apply pair_eqb_true in He.
+  destruct (proj1 (in_map_iff shape representatives k) Hk) as (r & Hr & Hin).
+  exists r. split; [exact Hin|]. split; [|congruence].
+  pose proof representatives_in_alphabet as HA.
+  pose proof (proj1 (forallb_forall (fun r => mem_N r c08_alphabet) representatives) HA r Hin) as H2.
+  apply mem_N_In. exact H2.
 Qed.
 
 (** * The encoder side, all strings *)
@@ -97,7 +103,7 @@ Qed.
     concatenation of one chunk per character, for every protection scheme
     (including an arbitrary callable) *)
 Theorem encoding_is_chunkwise : forall p s,
-  encode_builtin false p UKeep s = EncOk (concat (map (keep_chunk false p) s)).
+  encode_builtin false p UKeep s = EncOk (List.concat (map (keep_chunk false p) s)).
 Proof. intros p s. apply encode_builtin_keep. Qed.
 
 Corollary encoding_concat : forall p a b ta tb,
@@ -108,16 +114,61 @@ Proof.
   injection Ha as <-. injection Hb as <-. now rewrite map_app, concat_app.
 Qed.
 
-(** the decode half of the round trip *)
-Definition decode (sl : sls) (t : str) : option str :=
-  match latex_to_text (l2t_opts sl) t false with
-  | Some (txt, st) => match d_err st with None => Some txt | Some _ => None end
-  | None => None
-  end.
-
-(** so the round trip of a string is the decoding of the concatenated chunks:
+(** the round trip of a string is the decoding of the concatenated chunks:
     what remains for the unbounded theorem is a statement about the parser and
     latex2text alone *)
-Theorem roundtrip_is_decode_of_chunks : forall p sl s,
-  roundtrip p sl s = decode sl (concat (map (keep_chunk false p) s)).
-Proof. intros p sl s. unfold roundtrip, decode. now rewrite encoding_is_chunkwise. Qed.
+Theorem roundtrip_decode_of_chunks : forall p sl s,
+  roundtrip p sl s = decode sl (List.concat (map (keep_chunk false p) s)).
+Proof. intros p sl s. apply roundtrip_is_decode_of_chunks. Qed.
+
+(** * The proved restriction of the unbounded statement *)
+Lemma roundtrip_nil : forall p sl, roundtrip p sl [] = Some [].
+Proof. intros p sl. rewrite roundtrip_is_decode_of_chunks. destruct sl as [[] [] [] []]; vm_compute; reflexivity. Qed.
+
+Theorem roundtrip_bounded : forall p sl s,
+  In p schemes -> In sl policies -> has_ligature s = false ->
+  (s = [] \/ (exists c, s = [c] /\ In c c08_alphabet) \/
+   (exists a b, s = [a; b] /\ In a representatives /\ In b representatives)) ->
+  roundtrip p sl s = Some s.
+Proof.
+  intros p sl s Hp Hs Hl [->|[(c & -> & Hc)|(a & b & -> & Ha & Hb)]].
+  - apply roundtrip_nil.
+  - now apply single_characters.
+  - now apply class_pairs.
+Qed.
+
+(** * Non-vacuity witnesses (used by Properties/C08.v) *)
+Local Transparent representatives c08_alphabet shape.
+
+Lemma ex_single :
+  In 233 c08_alphabet /\ In PBraces schemes /\ In sls_macros policies /\
+  encode_builtin false PBraces UKeep [233] = EncOk (lit "\'e") /\
+  roundtrip PBraces sls_macros [233] = Some [233].
+Proof.
+  split; [apply mem_N_In; vm_compute; reflexivity|].
+  split; [left; reflexivity|]. split; [left; reflexivity|].
+  split; vm_compute; reflexivity.
+Qed.
+
+Lemma ex_pairs :
+  In 92 representatives /\ In 65 representatives /\ In 192 representatives /\
+  has_ligature [92; 65] = false /\
+  encode_builtin false PBraces UKeep [92; 65] = EncOk (lit "{\textbackslash}A") /\
+  encode_builtin false PBracesAfterMacro UKeep [92; 65] = EncOk (lit "\textbackslash{}A") /\
+  roundtrip PBraces sls_alltrue [92; 65] = Some [92; 65] /\
+  roundtrip PBracesAfterMacro sls_macros [192; 65] = Some [192; 65] /\
+  roundtrip PNone sls_macros [92; 65] <> Some [92; 65] /\
+  has_ligature [45; 45] = true /\ roundtrip PBraces sls_macros [45; 45] <> Some [45; 45].
+Proof.
+  split; [apply (proj1 (mem_N_In 92 representatives)); vm_compute; reflexivity|].
+  split; [apply (proj1 (mem_N_In 65 representatives)); vm_compute; reflexivity|].
+  split; [apply (proj1 (mem_N_In 192 representatives)); vm_compute; reflexivity|].
+  split; [vm_compute; reflexivity|].
+  split; [vm_compute; reflexivity|].
+  split; [vm_compute; reflexivity|].
+  split; [vm_compute; reflexivity|].
+  split; [vm_compute; reflexivity|].
+  split; [vm_compute; discriminate|].
+  split; [vm_compute; reflexivity|].
+  vm_compute; discriminate.
+Qed.
